@@ -710,6 +710,21 @@ func scenC04(g *Gen, dir string) ([]*Op, func(e *Env, i int, op *Op, obs []strin
 	s := g.signKeys()
 	ops := []*Op{keysOp(), create, {Kind: "sign", S: s}, factsOp()}
 	v := trustFor(s.keyList())
+	// what is asked to be verified: everything (default), one group, or chosen objects
+	switch r.Intn(4) {
+	case 0:
+		v.Groups = []uint32{pick(r, sortedGroups(groups))}
+		g.count("request:group")
+	case 1:
+		ids := groups[pick(r, sortedGroups(groups))]
+		v.Objects = []uint32{pick(r, ids)}
+		if r.Chance(1, 2) {
+			v.Objects = append(v.Objects, pick(r, ids))
+		}
+		g.count("request:objects")
+	default:
+		g.count("request:default")
+	}
 	ver0 := len(ops)
 	ops = append(ops, &Op{Kind: "verify", V: v})
 	var nobj int
@@ -1440,6 +1455,14 @@ func scenC17(g *Gen, dir string) ([]*Op, func(e *Env, i int, op *Op, obs []strin
 		allKeys = append(allKeys, 100+k)
 	}
 	vsel := trustFor(allKeys)
+	switch r.Intn(4) {
+	case 0: // key material for one scheme only: the other scheme's signatures must not be passed over
+		vsel.VS, vsel.NoVS = nil, true
+		g.count("verify:pgp-material-only")
+	case 1:
+		vsel.KR, vsel.NoKR = nil, true
+		g.count("verify:dsse-material-only")
+	}
 	vsel.Groups, vsel.Objects = sel.Groups, sel.Objects
 	verI := len(ops)
 	ops = append(ops, &Op{Kind: "verify", V: vsel})
